@@ -290,7 +290,7 @@ def compare_case(case, variant, obs, model, check_types=True):
     """Returns (spec_problem, corr_problem): strings or None."""
     spec = None
     corr = None
-    want = spec_verdict(case, variant) if case["stream"] in ("exhaustive", "exhaustive-arity", "exhaustive-repeat", "random", "imported") else None
+    want = spec_verdict(case, variant) if case["stream"] in ("exhaustive", "exhaustive-arity", "exhaustive-repeat", "random", "imported", "pending") else None
     if obs["class"] in ("timeout", "other", "panic"):
         spec = "goderive ended with %s (rc=%s): %s" % (obs["class"], obs["rc"], obs.get("stderr", "")[:300])
         return spec, corr
@@ -308,7 +308,7 @@ def compare_case(case, variant, obs, model, check_types=True):
         else:
             seen = {}
             # (result type, parameter types) identifies (plugin, argument types) in the C11 streams only
-            for f in (obs.get("funcs", []) if check_types else []):
+            for f in (obs.get("funcs", []) if check_types and case["stream"] != "pending" else []):
                 k = (f["result"], tuple(f["params"]))
                 if k in seen:
                     spec = "two generated functions for the same plugin and argument types: %s and %s %s" % (seen[k], f["name"], k)
